@@ -168,6 +168,136 @@ fn rand_diagram(r: &mut Rng, maxn: usize, maxe: usize, src_type: Option<&Vec<i64
     })
 }
 
+
+/// strict representation (JSON) of a plain description
+fn pack(w: &[i64], edges: &[(i64, Vec<usize>, Vec<usize>)], s: &[usize], t: &[usize]) -> Value {
+    let n = w.len();
+    let mut ssz = vec![];
+    let mut sval: Vec<usize> = vec![];
+    let mut tsz = vec![];
+    let mut tval: Vec<usize> = vec![];
+    let mut x = vec![];
+    for (l, es, et) in edges {
+        ssz.push(es.len());
+        tsz.push(et.len());
+        sval.extend(es.iter());
+        tval.extend(et.iter());
+        x.push(*l);
+    }
+    json!({
+        "s": {"table": s, "target": n}, "t": {"table": t, "target": n},
+        "h": {"s": {"sources": {"table": ssz, "target": sval.len() + 1}, "values": {"table": sval, "target": n}},
+              "t": {"sources": {"table": tsz, "target": tval.len() + 1}, "values": {"table": tval, "target": n}},
+              "w": w, "x": x}
+    })
+}
+
+/// a random single-writer acyclic circuit over the evaluation signature with `nops` operations,
+/// with hyperedges and nodes renumbered at random (numbering must not matter)
+fn rand_circuit(r: &mut Rng, nops: usize) -> (Value, usize) {
+    // label -> (arity, coarity)
+    let sig: [(i64, usize, usize); 9] = [(1, 2, 1), (2, 2, 1), (3, 1, 1), (4, 1, 2), (6, 0, 1), (9, 2, 1), (10, 1, 1), (12, 2, 2), (13, 2, 2)];
+    let ni = r.range(1, 3);
+    let mut avail: Vec<usize> = (0..ni).collect();
+    let mut n = ni;
+    let mut edges: Vec<(i64, Vec<usize>, Vec<usize>)> = vec![];
+    for _ in 0..nops {
+        let (l, ar, co) = *r.pick(&sig);
+        let es: Vec<usize> = (0..ar).map(|_| *r.pick(&avail)).collect();
+        let et: Vec<usize> = (0..co).map(|k| n + k).collect();
+        n += co;
+        avail.extend(et.iter());
+        edges.push((l, es, et));
+    }
+    let no = r.range(1, 3);
+    let t: Vec<usize> = (0..no).map(|_| *r.pick(&avail)).collect();
+    let s: Vec<usize> = (0..ni).collect();
+    // renumber nodes and hyperedges
+    let mut perm: Vec<usize> = (0..n).collect();
+    r.shuffle(&mut perm);
+    let mut edges: Vec<(i64, Vec<usize>, Vec<usize>)> =
+        edges.into_iter().map(|(l, a, b)| (l, a.iter().map(|v| perm[*v]).collect(), b.iter().map(|v| perm[*v]).collect())).collect();
+    r.shuffle(&mut edges);
+    let w = vec![0i64; n];
+    let s: Vec<usize> = s.iter().map(|v| perm[*v]).collect();
+    let t: Vec<usize> = t.iter().map(|v| perm[*v]).collect();
+    (pack(&w, &edges, &s, &t), ni)
+}
+
+/// a functor table covering every operation type that occurs in `f`:
+/// objects 0 |-> [0, 1], 1 |-> [] (or [1], [0, 0] ...), operations to fresh single operations of the right type
+fn functor_for(r: &mut Rng, f: &Value) -> Value {
+    let objs: Vec<Vec<i64>> = match r.below(3) {
+        0 => vec![vec![0, 1], vec![]],
+        1 => vec![vec![1], vec![0, 0]],
+        _ => vec![vec![0], vec![1]],
+    };
+    let w = vec_o(&f["h"]["w"]);
+    let x = vec_o(&f["h"]["x"]);
+    let seg = |ic: &Value| -> Vec<Vec<usize>> {
+        let sizes = vec_us(&ic["sources"]["table"]);
+        let vals = vec_us(&ic["values"]["table"]);
+        let mut out = vec![];
+        let mut p = 0;
+        for k in sizes {
+            out.push(vals[p..p + k].to_vec());
+            p += k;
+        }
+        out
+    };
+    let (ss, ts) = (seg(&f["h"]["s"]), seg(&f["h"]["t"]));
+    let mut ops: Vec<Value> = vec![];
+    let mut seen: Vec<(i64, Vec<i64>, Vec<i64>)> = vec![];
+    for i in 0..x.len() {
+        let a: Vec<i64> = ss[i].iter().map(|v| w[*v]).collect();
+        let b: Vec<i64> = ts[i].iter().map(|v| w[*v]).collect();
+        if seen.contains(&(x[i], a.clone(), b.clone())) {
+            continue;
+        }
+        seen.push((x[i], a.clone(), b.clone()));
+        let fa: Vec<i64> = a.iter().flat_map(|o| objs[*o as usize].clone()).collect();
+        let fb: Vec<i64> = b.iter().flat_map(|o| objs[*o as usize].clone()).collect();
+        let mut ww = fa.clone();
+        ww.extend(fb.iter());
+        let s: Vec<usize> = (0..fa.len()).collect();
+        let t: Vec<usize> = (fa.len()..fa.len() + fb.len()).collect();
+        let img = if r.coin(1, 4) && fa == fb {
+            // identity wires (a node on both interfaces)
+            pack(&fa, &[], &s, &s)
+        } else {
+            pack(&ww, &[(x[i] + 10, s.clone(), t.clone())], &s, &t)
+        };
+        ops.push(json!({"l": x[i], "a": a, "b": b, "img": img}));
+    }
+    json!({"obj": objs, "ops": ops})
+}
+
+/// a random sub-hypergraph inclusion into a random hypergraph (for the convexity test)
+fn rand_inclusion(r: &mut Rng) -> Value {
+    let n = r.range(2, 6);
+    let ne = r.range(1, 6);
+    let mut edges: Vec<(i64, Vec<usize>, Vec<usize>)> = vec![];
+    for _ in 0..ne {
+        edges.push((0, rand_seq(r, n, 2), rand_seq(r, n, 2)));
+    }
+    let w = vec![0i64; n];
+    let keep_e: Vec<usize> = (0..ne).filter(|_| r.coin(1, 2)).collect();
+    let mut keep_n: Vec<usize> = vec![];
+    for v in 0..n {
+        let touched = keep_e.iter().any(|e| edges[*e].1.contains(&v) || edges[*e].2.contains(&v));
+        if touched || r.coin(1, 2) {
+            keep_n.push(v);
+        }
+    }
+    let pos = |v: usize| keep_n.iter().position(|x| *x == v).unwrap();
+    let sub_edges: Vec<(i64, Vec<usize>, Vec<usize>)> =
+        keep_e.iter().map(|e| (0, edges[*e].1.iter().map(|v| pos(*v)).collect(), edges[*e].2.iter().map(|v| pos(*v)).collect())).collect();
+    let sub_w = vec![0i64; keep_n.len()];
+    let g = pack(&sub_w, &sub_edges, &[], &[]);
+    let h = pack(&w, &edges, &[], &[]);
+    json!({"source": g["h"], "target": h["h"], "w": {"table": keep_n, "target": n}, "x": {"table": keep_e, "target": ne}})
+}
+
 fn size_of(d: &Value) -> (usize, usize) {
     (arr(&d["h"]["w"]).len(), arr(&d["h"]["x"]).len())
 }
@@ -204,9 +334,28 @@ fn drive_strict(out: &mut impl Write, r: &mut Rng, budget: usize, props: &Value,
             ("lax.roundtrip_strict", json!({"f": f}))
         } else if choice < 90 {
             ("law.unit", json!({"f": f}))
-        } else if choice < 95 {
+        } else if choice < 93 {
             let g = rand_diagram(r, 2, 1, Some(&tgt_type(&f)));
             ("law.dagger_compose", json!({"f": f, "g": g}))
+        } else if choice < 96 {
+            // larger programs than TLC enumerates: circuits with 4..7 operations, any numbering
+            let nops = r.range(4, 7);
+            let (c, ni) = rand_circuit(r, nops);
+            let inputs: Vec<usize> = (0..ni).map(|_| r.below(256)).collect();
+            if r.coin(1, 2) {
+                ("strict.eval", json!({"f": c, "inputs": inputs}))
+            } else {
+                ("strict.layer", json!({"f": c}))
+            }
+        } else if choice < 98 {
+            let (n, e) = size_of(&f);
+            if n > 6 || e > 4 {
+                continue;
+            }
+            let ft = functor_for(r, &f);
+            ("functor.map_arrow", json!({"F": ft, "f": f}))
+        } else if choice < 99 {
+            ("arrow.is_convex_subgraph", rand_inclusion(r))
         } else {
             // replace a pool entry by a fresh random diagram
             let i = r.below(pool.len());
